@@ -211,7 +211,7 @@ var hashAssumptions = []string{
 
 func init() {
 	register(&checkDef{
-		ID: "C18", Pkg: "runh", Level: "model_checking", NativeCheck: true, UseStubs: true, OnlyPrefix: "C18/",
+		ID: "C18", Pkg: "runh", Level: "model_checking", NativeCheck: true, NativeRepeat: 10, UseStubs: true, OnlyPrefix: "C18/",
 		Explanation: "Bounded model checking of the real hash.Concurrent.Hash and worker (go/ssa, interpreted) over symbolic path lists drawn from a pool {two regular files with prefix-related names, a nested file, an empty file, a directory, a missing path, a file whose read fails}, a symbolic worker count, and the schedules of main, feeder, closer and worker goroutines: " +
 			"no panic in any goroutine, no deadlock, termination, an error and no digest whenever an entry cannot be opened or read, and no goroutine left behind after Hash returns.",
 		Bounds: func(tier string) string {
